@@ -72,8 +72,15 @@ def determinism(props, n=200, tier="quick"):
             with runner.Pool(nw, hashseed=hs) as p:
                 outs.append(p.map(reqs))
         mism = 0
+        exempt = 0
         for i in range(n):
             ds = {(o[i].get("digest"), o[i].get("outcome")) for o in outs}
+            if len(ds) != 1 and len({d for d, _ in ds}) == 1 and any((o[i].get("counters") or {}).get("numerics:singular-operator") for o in outs):
+                # same events, another verdict: what ARPACK returns for an exactly singular operator (the
+                # open C18 findings) is not reproducible run to run - as in the checks, only the event
+                # digest is compared for these documents (DESIGN 15.5)
+                exempt += 1
+                continue
             if len(ds) != 1:
                 mism += 1
                 if mism <= 3:
@@ -81,7 +88,7 @@ def determinism(props, n=200, tier="quick"):
         oc = {}
         for o in outs[0]:
             oc[o["outcome"]] = oc.get(o["outcome"], 0) + 1
-        print(f"determinism {prop}: {n} documents x 4 configurations, mismatches={mism}, outcomes={oc}", flush=True)
+        print(f"determinism {prop}: {n} documents x 4 configurations, mismatches={mism}, outcomes={oc}" + (f", singular-operator documents compared by event digest only: {exempt}" if exempt else ""), flush=True)
         bad += mism
     return 0 if bad == 0 else 2
 
